@@ -152,6 +152,42 @@ def task_wrapper(arg):
     return out.dump()
 
 
+def task_wrapper_joint(ds):
+    """All rules with a rounding spec at this date wrapped in ONE call of _add_rounding_to_functions (two orders): no state may leak between rules."""
+    out = Partial()
+    d = datetime.date.fromisoformat(ds)
+    p, _ = harness.env(ds)
+    stubs = {}
+    specs = {}
+    for g in RP.groups():
+        for name, spec in RP.raw_params(g, d).get("rounding", {}).items():
+            def stub(x):
+                return x
+            stub.__name__ = name
+            stub.__info__ = {"params_key_for_rounding": g, "name_in_dag": name}
+            stubs[name] = stub
+            specs[name] = spec
+    for order in (sorted(stubs), sorted(stubs, reverse=True)):
+        try:
+            wrapped = IF._add_rounding_to_functions({k: stubs[k] for k in order}, p)
+        except Exception as e:  # noqa: BLE001
+            out.violation(f"joint-wrapper-raises:{type(e).__name__}", {"date": ds}, repr(e)[:200])
+            continue
+        for name in order:
+            want = specs[name]
+            vals = value_alphabet(want["base"])[::7]
+            res = np.asarray(wrapped[name](np.array(vals, dtype=float)), dtype=float)
+            out.state(("joint", name, ds, order[0]))
+            for v, r in zip(vals, res.tolist()):
+                out.step()
+                why = judge(Fraction(v), r, want["base"], want["direction"], want.get("to_add_after_rounding"))
+                if why:
+                    out.violation(f"wrong-rounding-when-wrapped-together:{name}", {"date": ds, "rule": name, "spec": want, "value": v, "result": r, "first_in_call": order[0]},
+                                  f"{name} on {ds}, wrapped in one call with {len(order)} rules: {why}")
+                    break
+    return out.dump()
+
+
 def task_missing_spec(arg):
     """A rule with a rounding key but no spec must raise; a rule active at a date must have its spec."""
     ds = arg
@@ -318,6 +354,9 @@ def run(tier):
                     if d >= keys[0]:
                         tasks.add((g, fn, d.isoformat()))
     for part in harness.pmap(task_wrapper, harness.rotate(sorted(tasks)), chunksize=4):
+        rep.merge(part)
+    jdates = sorted({ks for _, _, ks in vers} | {"2015-01-01", "2023-01-01"})
+    for part in harness.pmap(task_wrapper_joint, jdates):
         rep.merge(part)
     dates = [d.isoformat() for d in (popgen.d15() if thorough else popgen.quick_dates(4))] + (["2001-01-01", "2002-01-01", "2004-01-01", "2009-01-01"])
     for part in harness.pmap(task_missing_spec, dates):
